@@ -13,7 +13,7 @@ Checked on the REAL front-end, with per-unit datastore dumps after every request
 from pymodbus.factory import ServerDecoder
 
 from harness.runner import Report
-from harness import execlib, serverlib, frontends, pdus
+from harness import execlib, serverlib, frontends, pdus, framelib
 
 ASSUMPTIONS = ['event loops and sockets are replaced by in-process fakes that hand each chunk to the real handler in order',
                'datastores do not raise (a raising datastore aborts a broadcast loop half way: modelled, not part of (d))',
@@ -60,7 +60,7 @@ def gen_case(rng, frontend=None):
                 r = {'t': 'writeRegisters', 'address': a, 'count': cnt, 'byte_count': 2 * cnt, 'values': vals, 'raw': raw}
                 uid = 0 if bcast else rng.choice(hosted)
                 f = serverlib.frame_request(framer, r, uid, rng.randrange(65536))
-                if not (framer == 'binary' and any(b in (0x7B, 0x7D) for b in f[1:-1])):
+                if not (framer == 'binary' and framelib.has_delim(f)):
                     steps.append({'uid': uid, 'req': r, 'frame': f})
                     continue
         others = [u for u in range(256) if u not in hosted]
@@ -72,7 +72,7 @@ def gen_case(rng, frontend=None):
         if framer == 'rtu' and 'raw' in r and len(r['raw']) != r.get('byte_count', r.get('write_byte_count')):
             continue   # on RTU the byte count field delimits the frame: a mismatch is a framing error, not a request
         f = serverlib.frame_request(framer, r, uid, rng.randrange(65536))
-        if framer == 'binary' and any(b in (0x7B, 0x7D) for b in f[1:-1]):
+        if framer == 'binary' and framelib.has_delim(f):
             continue
         steps.append({'uid': uid, 'req': r, 'frame': f})
     if not single and len(units) >= 2 and len(steps) >= 2 and rng.random() < 0.3:
@@ -167,7 +167,7 @@ def check(ctx, rep, cases):
                     rep.violation('a request for a unit that is not hosted changed a datastore', case, index=i, addressed=uid,
                                   request=execlib.strip(st['req']))
                     bad = True
-                elif o and c['framer'] == 'binary' and any(b in (0x7B, 0x7D) for f in o for b in f[1:-1]):
+                elif o and c['framer'] == 'binary' and any(framelib.has_delim(f) for f in o):
                     rep.violation('a binary response frame contains a delimiter byte', case, finding='binary-framer-escaping')
                     bad = True
                 elif o and not (len(frames) == 1 and 'msg' in frames[0] and frames[0]['msg']['t'] == 'exception' and frames[0]['msg']['code'] in (10, 11)):
